@@ -3,17 +3,18 @@ import TarpcModel.Lemmas.ClientMon
 # C05 — the client enforces request deadlines, never early
 
 Property theorems only.  A call fails with `DeadlineExceeded` (`Outcome.deadline`) only through
-`InFlightRequests::poll_expired`, i.e. when the `DelayQueue` yields the timer armed for the request.  The proof goes
-through `DelayQ.pollExpired_spec` (`Lemmas/DelayQInv.lean`: the timer wheel emulation never yields an entry before
-`whenMs`, given `wheelElapsed ≤ now`) and the client invariant `Client.StInv` (`Lemmas/ClientInv.lean`: every timer is
-armed at or after `dueAt` the deadline of its in-flight entry, which is the deadline of the call that created it).
+`InFlightRequests::poll_expired`, i.e. when the `DelayQueue` yields the timer armed for the request *and* nothing of
+the time until the deadline is left to be armed.  The proof goes through `DelayQ.pollExpired_spec`
+(`Lemmas/DelayQInv.lean`: the timer wheel emulation never yields an entry before `whenMs`, given
+`wheelElapsed ≤ now`) and the client invariant `Client.StInv` (`Lemmas/ClientInv.lean`: for every in-flight entry
+`deadline ≤ whenMs * 1e6 + remainder`, where `whenMs` is its armed timer and `remainder` its `deadline_remainder`).
 
-**The clamp.**  `insert_request` arms the timer with `min (deadline - now) MAX_DEADLINE_TIMEOUT`
-(`clampTimeout`; `Gen.clientTimerClampSecs` seconds, `clampNs` in ns; `0` = not clamped).  A timer armed at `now`
-therefore fires at `now + min (deadline - now) clampNs ≥ min deadline clampNs = dueAt deadline`: "never early" holds
-in the form `deadline ≤ now ∨ clampNs ≤ now`.  The unconditional form follows for calls whose deadline is at most
-`clampNs` and for all calls as long as the clock is before `clampNs` (`…_of_le_clamp`, `…_before_clamp`);
-`C05_clamp_fires_early_witness` shows that it does not hold beyond.
+**The clamp and the re-arm.**  `insert_request` arms the timer with `min (deadline - now) MAX_DEADLINE_TIMEOUT`
+(`clampTimeout`) and keeps the rest as the entry's `remainder`; when the timer fires with `remainder ≠ 0`,
+`poll_expired` arms a new timer with (a clamped part of) the remainder instead of failing the request
+(`Client.rearm`).  An earlier version of the code clamped without re-arming; the witness found then (a call with a
+deadline two clamps away failing after one) is now `C05_far_deadline_witness`: pending after one clamp, failed at the
+deadline.
 
 Only the *never early* half of C05 is covered here; the *not late* half (second and third clause of `checkC05`)
 is kept as a statement.
@@ -22,75 +23,57 @@ set_option linter.unusedSimpArgs false
 namespace TarpcModel.Client
 
 /-- **C05 never early, state form (oneshot).**  In every reachable state, if the oneshot of a call holds
-`DeadlineExceeded`, the virtual clock has reached the deadline the caller gave (`ctx.deadline`, ns) — or the clamp
-`clampNs` of the armed timeout, if the source clamps. -/
+`DeadlineExceeded`, the virtual clock has reached the deadline the caller gave (`ctx.deadline`, ns). -/
 theorem C05_oneshot_deadline_not_early (m bufCap tcap : Nat) (coupled : Bool) (ops : List COp)
     (c : Sys) (hc : c = ops.foldl applyOp (initSys m bufCap tcap coupled)) (cl : Call) (hcl : cl ∈ c.s.calls)
-    (h : cl.os.val = some .deadline) :
-    cl.ctx.deadline ≤ c.now ∨ (Gen.clientTimerClampSecs ≠ 0 ∧ clampNs ≤ c.now) := by
-  subst hc; exact (dueAt_le_iff _ _).mp ((inv_reach m bufCap tcap coupled ops).c.osDl cl hcl h)
-
-/-- … hence unconditionally for a call whose deadline is at most `clampNs`, and for every call while the clock is
-before `clampNs`. -/
-theorem C05_oneshot_deadline_not_early_of_le_clamp (m bufCap tcap : Nat) (coupled : Bool) (ops : List COp)
-    (c : Sys) (hc : c = ops.foldl applyOp (initSys m bufCap tcap coupled)) (cl : Call) (hcl : cl ∈ c.s.calls)
-    (h : cl.os.val = some .deadline) (hd : cl.ctx.deadline ≤ clampNs ∨ c.now < clampNs) : cl.ctx.deadline ≤ c.now := by
-  rcases C05_oneshot_deadline_not_early m bufCap tcap coupled ops c hc cl hcl h with h1 | ⟨_, h1⟩ <;> omega
+    (h : cl.os.val = some .deadline) : cl.ctx.deadline ≤ c.now := by
+  subst hc; exact (inv_reach m bufCap tcap coupled ops).c.osDl cl hcl h
 
 /-- **C05 never early, state form (resolution).**  In every reachable state, a call that resolved with
-`DeadlineExceeded` has its deadline (or the clamp) behind the clock. -/
+`DeadlineExceeded` has its deadline behind the clock. -/
 theorem C05_outcome_deadline_not_early (m bufCap tcap : Nat) (coupled : Bool) (ops : List COp)
     (c : Sys) (hc : c = ops.foldl applyOp (initSys m bufCap tcap coupled)) (cl : Call) (hcl : cl ∈ c.s.calls)
-    (h : cl.outcome = some .deadline) :
-    cl.ctx.deadline ≤ c.now ∨ (Gen.clientTimerClampSecs ≠ 0 ∧ clampNs ≤ c.now) := by
-  subst hc; exact (dueAt_le_iff _ _).mp ((inv_reach m bufCap tcap coupled ops).c.outDl cl hcl h)
+    (h : cl.outcome = some .deadline) : cl.ctx.deadline ≤ c.now := by
+  subst hc; exact (inv_reach m bufCap tcap coupled ops).c.outDl cl hcl h
 
-theorem C05_outcome_deadline_not_early_of_le_clamp (m bufCap tcap : Nat) (coupled : Bool) (ops : List COp)
-    (c : Sys) (hc : c = ops.foldl applyOp (initSys m bufCap tcap coupled)) (cl : Call) (hcl : cl ∈ c.s.calls)
-    (h : cl.outcome = some .deadline) (hd : cl.ctx.deadline ≤ clampNs ∨ c.now < clampNs) : cl.ctx.deadline ≤ c.now := by
-  rcases C05_outcome_deadline_not_early m bufCap tcap coupled ops c hc cl hcl h with h1 | ⟨_, h1⟩ <;> omega
-
-/-- **C05 never early, the timers.**  In every reachable state every armed timer of an in-flight request is armed
-at or after `min deadline clampNs` (`whenMs` is in ms, deadlines in ns): at or after the request's deadline, or at
-or after the clamp. -/
+/-- **C05 never early, the timers.**  In every reachable state the armed timer of an in-flight request (`whenMs`, in
+ms) together with the part of the time until the deadline that has not been armed yet (`remainder`, ns) reaches the
+request's deadline.  In particular an entry with `remainder = 0` has its timer at or after the deadline. -/
 theorem C05_timer_not_before_deadline (m bufCap tcap : Nat) (coupled : Bool) (ops : List COp)
     (s : St) (hs : s = (ops.foldl applyOp (initSys m bufCap tcap coupled)).s) (en : Entry) (hen : en ∈ s.inflight)
     (d : DqEntry) (hd : d ∈ s.timers.entries ++ s.timers.expired) (hk : d.key = en.timerKey) :
-    en.ctx.deadline ≤ d.whenMs * nsPerMs ∨ (Gen.clientTimerClampSecs ≠ 0 ∧ clampNs ≤ d.whenMs * nsPerMs) := by
+    en.ctx.deadline ≤ d.whenMs * nsPerMs + en.remainder ∧
+    (en.remainder = 0 → en.ctx.deadline ≤ d.whenMs * nsPerMs) := by
   subst hs
   have h := inv_reach m bufCap tcap coupled ops
   obtain ⟨w, hw, hdl⟩ := h.t.e2t en hen
   have := (DelayQ.Has.functional h.t.wf hw ⟨d, hd, hk, rfl, rfl⟩).2
-  rw [this] at hdl; exact (dueAt_le_iff _ _).mp hdl
-
-/-- … hence at or after the deadline itself when the deadline is at most `clampNs`. -/
-theorem C05_timer_not_before_deadline_of_le_clamp (m bufCap tcap : Nat) (coupled : Bool) (ops : List COp)
-    (s : St) (hs : s = (ops.foldl applyOp (initSys m bufCap tcap coupled)).s) (en : Entry) (hen : en ∈ s.inflight)
-    (d : DqEntry) (hd : d ∈ s.timers.entries ++ s.timers.expired) (hk : d.key = en.timerKey)
-    (hle : en.ctx.deadline ≤ clampNs) : en.ctx.deadline ≤ d.whenMs * nsPerMs := by
-  rcases C05_timer_not_before_deadline m bufCap tcap coupled ops s hs en hen d hd hk with h1 | ⟨_, h1⟩ <;> omega
+  rw [this] at hdl; exact ⟨hdl, fun h0 => by omega⟩
 
 /-- **C05 never early, the expiry itself.**  In every reachable state, if polling the `DelayQueue` at the current
-time yields a timer, that timer is due (`whenMs * 1e6 ≤ now`) and belongs to exactly one in-flight entry, whose
-deadline (or the clamp) has passed. -/
+time yields a timer, that timer is due (`whenMs * 1e6 ≤ now`) and belongs to exactly one in-flight entry — the one
+`poll_expired` finds —; if that entry's `remainder` is nonzero the iteration does *not* fail the request (it re-arms
+the timer, or panics in `DelayQueue::insert`), and if it is zero the request's deadline has passed. -/
 theorem C05_expiry_only_when_due (m bufCap tcap : Nat) (coupled : Bool) (ops : List COp)
     (c : Sys) (hc : c = ops.foldl applyOp (initSys m bufCap tcap coupled)) (e : DqEntry)
     (h : (c.s.timers.pollExpired c.now).2 = .expired e) :
-    e.whenMs * nsPerMs ≤ c.now ∧ ∃ en ∈ c.s.inflight, en.id = e.val ∧
-      (en.ctx.deadline ≤ c.now ∨ (Gen.clientTimerClampSecs ≠ 0 ∧ clampNs ≤ c.now)) := by
+    e.whenMs * nsPerMs ≤ c.now ∧ ∃ en ∈ c.s.inflight, en.id = e.val ∧ findEntry c.s e.val = some en ∧
+      en.ctx.deadline ≤ c.now + en.remainder ∧
+      (en.remainder ≠ 0 → ∀ s', expireStep c.s c.now ≠ .done s' true) ∧
+      (en.remainder = 0 → en.ctx.deadline ≤ c.now) := by
   subst hc
   have hi := inv_reach m bufCap tcap coupled ops
   obtain ⟨en, hen, e1, e2, -⟩ := (hi.t.expired hi.i.inNodup).1 e h
-  exact ⟨((DelayQ.pollExpired_spec _ _ hi.t.wf hi.t.timely).some e h).2.1, en, hen, e1, (dueAt_le_iff _ _).mp e2⟩
-
-/-- … before `clampNs`: the entry's deadline has passed. -/
-theorem C05_expiry_only_when_due_before_clamp (m bufCap tcap : Nat) (coupled : Bool) (ops : List COp)
-    (c : Sys) (hc : c = ops.foldl applyOp (initSys m bufCap tcap coupled)) (e : DqEntry)
-    (h : (c.s.timers.pollExpired c.now).2 = .expired e) (hnow : c.now < clampNs) :
-    e.whenMs * nsPerMs ≤ c.now ∧ ∃ en ∈ c.s.inflight, en.id = e.val ∧ en.ctx.deadline ≤ c.now := by
-  obtain ⟨h1, en, hen, e1, e2⟩ := C05_expiry_only_when_due m bufCap tcap coupled ops c hc e h
-  refine ⟨h1, en, hen, e1, ?_⟩
-  rcases e2 with e2 | ⟨_, e2⟩ <;> omega
+  have hf : findEntry (ops.foldl applyOp (initSys m bufCap tcap coupled)).s e.val = some en := by
+    cases hf : findEntry (ops.foldl applyOp (initSys m bufCap tcap coupled)).s e.val with
+    | none => exact absurd e1 (findEntry_none_ne hf en hen)
+    | some en' =>
+      obtain ⟨hen', hid'⟩ := findEntry_some_mem hf
+      rw [eq_of_nodup_map (·.id) hi.i.inNodup hen' hen (by rw [hid', e1])]
+  refine ⟨((DelayQ.pollExpired_spec _ _ hi.t.wf hi.t.timely).some e h).2.1, en, hen, e1, hf, e2, ?_, fun h0 => by omega⟩
+  intro hne s'
+  rw [expireStep_of_expired h hf, if_pos (by simpa using hne)]
+  exact rearm_ne_done_true _ _ _ _ _ _
 
 /-- The *never early* clause of `checkC05` (its first test), as a monitor of its own. -/
 def checkC05NeverEarly (b : Book) (last : C05St) : CEv → C05St × Option String
@@ -104,18 +87,14 @@ def checkC05NeverEarly (b : Book) (last : C05St) : CEv → C05St × Option Strin
 
 def monC05NeverEarly (evs : List CEv) : Mon C05St := Mon.run checkC05NeverEarly none evs
 
-/-- **C05 never early, monitor form.**  For every configuration and every script whose total virtual time (the sum
-of its `advance` amounts, `advSum ops`) stays below the clamp `clampNs` (or if the source does not clamp), the
-monitor made of the first clause of `checkC05` accepts the model's trace: every `resolved c DeadlineExceeded t`
-observation carries a time `t` not before the deadline given in the `call` op that created call `c`.  (Beyond
-`clampNs` a call whose deadline is further away than the clamp legitimately expires at the clamp — see
-`C05_clamp_fires_early_witness` — and this monitor, which knows nothing of the clamp, would object.) -/
-theorem C05_monitor_never_early_accepts (m bufCap tcap : Nat) (coupled : Bool) (ops : List COp)
-    (hT : Gen.clientTimerClampSecs = 0 ∨ advSum ops < clampNs) :
+/-- **C05 never early, monitor form.**  For every configuration and every script, the monitor made of the first
+clause of `checkC05` accepts the model's trace: every `resolved c DeadlineExceeded t` observation carries a time `t`
+not before the deadline given in the `call` op that created call `c`. -/
+theorem C05_monitor_never_early_accepts (m bufCap tcap : Nat) (coupled : Bool) (ops : List COp) :
     (monC05NeverEarly (trace (initSys m bufCap tcap coupled) ops)).ok = true := by
   apply mon_accepts (m := m) (T := advSum ops) (hT := Nat.le_refl _)
   · intro bk st op; rfl
-  · intro c bk st o _ hnow hi hcpl hg
+  · intro c bk st o _ _ hi hcpl hg
     cases o <;> try rfl
     rename_i cid oc t
     cases oc <;> try rfl
@@ -123,16 +102,11 @@ theorem C05_monitor_never_early_accepts (m bufCap tcap : Nat) (coupled : Bool) (
     cases hf : bk.calls.find? (·.cid == cid) with
     | none => rfl
     | some ci =>
-      obtain ⟨cl, hcl, e1, e2, e3⟩ := hg rfl
+      obtain ⟨cl, hcl, e1, e2, -⟩ := hg rfl
       obtain ⟨cl', hcl', f1, f2⟩ := hcpl.find hf
       have : cl = cl' := hi.c.cid_unique hcl hcl' (by rw [e1, f1])
       subst this
-      have : ¬ t < ci.deadline := by
-        rcases (dueAt_le_iff _ _).mp e2 with h1 | ⟨h0, h1⟩
-        · omega
-        · rcases hT with hT | hT
-          · exact absurd hT h0
-          · omega
+      have : ¬ t < ci.deadline := by omega
       simp [this]
 
 /-- The first clause of `checkC05` is exactly `checkC05NeverEarly`: whenever the sub-monitor objects, so does
@@ -176,18 +150,45 @@ example :
         .advance 4500000, .pollDispatch, .pollCall 0]).drop 20 := by
   decide
 
-/-- a call whose deadline is two clamps away; the clock is advanced by one clamp -/
-def c05ClampOps : List COp :=
+/-- a call whose deadline is two clamps away; the clock is advanced by one clamp, then by another -/
+def c05FarOps1 : List COp :=
   [.call 0 (2 * clampNs) ⟨1, .given 1, true⟩ 7, .pollCall 0, .pollDispatch, .advance clampNs, .pollDispatch, .pollCall 0]
 
+def c05FarOps2 : List COp := c05FarOps1 ++ [.advance clampNs, .pollDispatch, .pollCall 0]
+
 set_option maxRecDepth 100000 in
-/-- **The clamp is visible (by design of the source).**  A call whose deadline is `2 * clampNs` fails with
-`DeadlineExceeded` at `clampNs`, i.e. *before* its deadline: the timer was armed with the clamped timeout.  Hence
-the disjunct `clampNs ≤ now` in the theorems above cannot be dropped, and `monC05NeverEarly` (which knows nothing of
-the clamp) rejects this trace — the hypothesis `advSum ops < clampNs` of `C05_monitor_never_early_accepts` is needed. -/
-theorem C05_clamp_fires_early_witness :
+/-- **A deadline beyond the clamp is honoured (the former defect, turned around).**  A call whose deadline is
+`2 * clampNs`: after `clampNs` the timer armed by `insert_request` fires, `poll_expired` re-arms it with the
+remainder (one timer stays armed, the entry's remainder is used up) and the call is still pending; after another
+`clampNs` it fails with `DeadlineExceeded` exactly at its deadline, and `monC05NeverEarly` accepts the trace.  (With
+the clamp but without the re-arm — the code as it was for a while — this call failed at `clampNs`, a year early.) -/
+theorem C05_far_deadline_witness :
     clampNs < 2 * clampNs ∧
-    CEv.obs (.resolved 0 .deadline clampNs) ∈ trace (initSys 1 1 1 true) c05ClampOps ∧
-    (monC05NeverEarly (trace (initSys 1 1 1 true) c05ClampOps)).ok = false := by decide
+    (∀ t, CEv.obs (.resolved 0 .deadline t) ∉ trace (initSys 1 1 1 true) c05FarOps1) ∧
+    (c05FarOps1.foldl applyOp (initSys 1 1 1 true)).s.timers.len = 1 ∧
+    ((c05FarOps1.foldl applyOp (initSys 1 1 1 true)).s.inflight.map (·.remainder)) = [0] ∧
+    CEv.obs (.resolved 0 .deadline (2 * clampNs)) ∈ trace (initSys 1 1 1 true) c05FarOps2 ∧
+    (monC05NeverEarly (trace (initSys 1 1 1 true) c05FarOps2)).ok = true := by
+  refine ⟨by decide, ?_, by decide, by decide, by decide, by decide⟩
+  intro t hm
+  have : (trace (initSys 1 1 1 true) c05FarOps1).any
+      (fun ev => match ev with | .obs (.resolved _ .deadline _) => true | _ => false) = false := by decide
+  rw [List.any_eq_false] at this
+  exact this _ hm (by rfl)
+
+/-- The model variant "clamp without re-arm" (the code between the two fixes): every entry forgets its remainder. -/
+def forgetRemainders (c : Sys) : Sys :=
+  { c with s := { c.s with inflight := c.s.inflight.map (fun e => { e with remainder := 0 }) } }
+
+set_option maxRecDepth 100000 in
+/-- **The former defect, as a statement about that variant.**  If the entry's remainder is dropped after the request
+was inserted (which is what the code did before `deadline_remainder` existed), the same call — deadline
+`2 * clampNs` — fails with `DeadlineExceeded` at `clampNs`, a whole clamp before its deadline, and `monC05NeverEarly`
+rejects the trace.  So the `remainder` is what restores "never early" beyond the clamp. -/
+theorem C05_clamp_without_rearm_witness :
+    clampNs < 2 * clampNs ∧
+    CEv.obs (.resolved 0 .deadline clampNs) ∈
+      trace (forgetRemainders ((c05FarOps1.take 3).foldl applyOp (initSys 1 1 1 true))) (c05FarOps1.drop 3) := by
+  decide
 
 end TarpcModel.Client
